@@ -234,6 +234,6 @@ def run(chk: Check, ctx: Any) -> None:
                           f"state {st!r}: no rule is certain to match on characters {missing.describe()} "
                           "that can occur there in an accepted source; the engine yields an Error token",
                           facts={"missing": missing.describe(12)})
-    chk.extra["states"] = {s: len(r) for s, r in rules_by_state.items()}
+    chk.extra["lexer_states"] = {s: len(r) for s, r in rules_by_state.items()}
     chk.extra["enterable_states"] = sorted(enterable)
     chk.extra["flags"] = flags
